@@ -58,6 +58,9 @@ ALT_KEYS = {
     "loose": ("findloose-precedence-differs-from-filtering",
               lambda r: r["shape"] == "asfinding" and r["got"] not in r["admits"]),
     "mappednet": ("find-by-mapped-cidr-text-finds-nothing", lambda r: r["got"] == 0 and r["want"] > 0),
+    # a zoned address whose exact owner is the identifier written without a zone: the answer is the
+    # one without that rule (absent = that answer, printed by TLC: ByAddrZoneStrict)
+    "zonefall": ("zoned-source-misses-zoneless-exact-identifier", lambda r: r["got"] == r["absent"] and r["got"] != r["want"]),
 }
 # Hard flags: concretisations that change what is REGISTERED or leased, so a
 # defect they expose ends the tour.  While the finding is open they are
@@ -126,7 +129,8 @@ class Graph:
         i = len(self.keys)
         self.index[k] = i
         self.keys.append(k)
-        self.tables.append({"fi": rec["fi"], "fa": rec["fa"], "ap": rec["ap"], "lo": rec["lo"], "fx": rec["fx"]})
+        self.tables.append({"fi": rec["fi"], "fa": rec["fa"], "ap": rec["ap"], "lo": rec["lo"], "fx": rec["fx"],
+                            "zi": rec["zi"], "za": rec["za"], "zp": rec["zp"]})
         self.sampled.append(bool(rec["s"]))
         self.raw_edges.append(rec["e"])
 
@@ -254,7 +258,7 @@ def write_input(path, graphs, chunks):
             for i, k in enumerate(g.keys):
                 t = g.tables[i]
                 fh.write(json.dumps({"t": "s", "u": g.name, "i": i, "k": list(k), "fi": t["fi"], "fa": t["fa"],
-                                     "ap": t["ap"], "lo": t["lo"], "fx": t["fx"]}, separators=(",", ":")) + "\n")
+                                     "ap": t["ap"], "lo": t["lo"], "fx": t["fx"], "zi": t["zi"], "za": t["za"], "zp": t["zp"]}, separators=(",", ":")) + "\n")
         for c in chunks:
             d = dict(c)
             if isinstance(d["steps"], array):
